@@ -124,7 +124,8 @@ class SshProtocolMessage(ParsableBase):
             comment = ' '.join(software_version_and_comment[1:])
         else:
             comment = None
-        parser.parse_separator('\n', 1, 1)
+        parser.parse_string('separator', '\n')
+        del parser['separator']
 
         if parser.parsed_length > 255:
             raise TooMuchData(parser.parsed_length - 255)
